@@ -96,20 +96,27 @@ impl WorldA {
     /// Model: endpoint (i, side) receives sequence `seq`; keep only the newest 64 ranges.
     fn pend_insert(&mut self, i: usize, side: usize, seq: u64, obs: &mut Obs) {
         let ep = &mut self.conns[i].ep[side];
-        ep.pend.insert(seq);
         ep.handed_seqs.insert(seq);
-        let r = ranges_of(&ep.pend);
-        if r.len() > 8 {
+        // the number of ranges is kept incrementally (a message of 65 000 slices makes recounting per arrival quadratic)
+        if ep.pend.insert(seq) {
+            let has_prev = seq > 0 && ep.pend.contains(&(seq - 1));
+            let has_next = seq < u64::MAX && ep.pend.contains(&(seq + 1));
+            ep.pend_nr = ep.pend_nr + 1 - has_prev as usize - has_next as usize;
+        }
+        debug_assert!(ep.pend.len() > 512 || ep.pend_nr == ranges_of(&ep.pend).len());
+        if ep.pend_nr > 8 {
             obs.count("probe.ack_ranges_gt8");
         }
-        if r.len() > 64 {
+        if ep.pend_nr > 64 {
             obs.count("probe.ack_ranges_gt64_capped");
+            let r = ranges_of(&ep.pend);
             let drop_n = r.len() - 64;
             for (s, e) in r.iter().take(drop_n) {
                 for x in *s..*e {
                     ep.pend.remove(&x);
                 }
             }
+            ep.pend_nr = 64;
         }
     }
 
@@ -548,6 +555,7 @@ impl WorldA {
                             let ep = &mut self.conns[i].ep[rside];
                             let keep = ep.pend.split_off(&(largest + 1));
                             ep.pend = keep;
+                            ep.pend_nr = ranges_of(&ep.pend).len();
                         }
                         SentInfo::None => {}
                     }
